@@ -210,7 +210,7 @@ func (s *state) walk(node ast.Node) {
 
 	// Arithmetic operators ----------
 	case *ast.NegateNode:
-		s.js("(-", node.Arg, ")")
+		s.js("(-(", node.Arg, "))")
 	case *ast.AddNode:
 		s.op("+", node)
 	case *ast.SubNode:
